@@ -34,7 +34,7 @@ class Profile:
 
 BASE_W = {
     "new": 10, "newcyc": 3, "clone": 8, "drop": 12, "setf": 14, "clrf": 5, "takef": 3, "getf": 5,
-    "markalive": 2, "finagain": 2, "unwrap": 3, "down": 5, "up": 5, "wclone": 2, "wdrop": 3, "wnew": 1,
+    "movef": 4, "markalive": 2, "finagain": 2, "unwrap": 3, "down": 5, "up": 5, "wclone": 2, "wdrop": 3, "wnew": 1,
     "setw": 3, "clrw": 1, "reg": 4, "clean": 3, "cdrop": 2, "collect": 8, "cfg": 2, "setu": 4, "nop": 0,
 }
 
@@ -127,7 +127,7 @@ class Gen:
         if in_cb:
             if kind == "drop":
                 # Drop impls must not touch Cc fields of the value: only table entries, weaks, allocation, collection
-                for k in ("setf", "clrf", "takef", "getf", "setu", "setw", "clrw", "reg", "markalive"):
+                for k in ("setf", "movef", "clrf", "takef", "getf", "setu", "setw", "clrw", "reg", "markalive"):
                     w[k] = 0
                 w["clone"] = 2
                 w["drop"] = 4
@@ -165,6 +165,8 @@ class Gen:
             return "setf %s %s %s" % (self.nref(in_cb, kind), self.slot(), self.href(in_cb, kind))
         if k == "setu":
             return "setf %s u%d %s" % (self.nref(in_cb, kind), r.randrange(max(self.nu, 1)), self.href(in_cb, kind))
+        if k == "movef":
+            return "movef %s %s h%d" % (self.nref(in_cb, kind), self.slot(), r.randrange(self.nh))
         if k == "clrf":
             return "clrf %s %s" % (self.nref(in_cb, kind), self.slot())
         if k == "takef":
@@ -256,11 +258,14 @@ class Gen:
                 if f["weak"] and c < 0.45:
                     ops.append("up %s h%d" % (r.choice(["w%d" % r.randrange(self.nw)] + (["s.w0"] if self.nwf and kind != "action" else [])), k))
                 elif c < 0.6 and kind == "fin":
-                    ops.append(r.choice(["getf s f0 h%d" % k, "clone s.f0 h%d" % k, "clrf s f0", "takef s f0 h%d" % k]))
+                    ops.append(r.choice(["getf s f0 h%d" % k, "clone s.f0 h%d" % k, "clrf s f0", "takef s f0 h%d" % k, "movef s f0 h%d" % k,
+                                         "movef s.f0 f0 h%d" % k]))
                 elif c < 0.7:
                     ops.append("collect")
-                elif c < 0.8:
+                elif c < 0.78:
                     ops.append("new h%d %d %d %d 0 0 0" % (k, self.ns, self.nu, self.nwf))
+                elif c < 0.8 and f["weak"]:
+                    ops.append("newcyc h%d %d %d %d 0 0 0 0 -" % (k, self.ns, self.nu, self.nwf))
                 elif c < 0.85 and f["clean"]:
                     ops.append("clean c%d" % r.randrange(self.nk))
                 elif c < 0.9:
@@ -336,8 +341,51 @@ class Gen:
             ops.append("collect")
         return lines + ops + ["end"]
 
+    def fin_chain(self, name):
+        """A chain of self-cyclic objects, each owning the next through an untraced field and releasing it in its
+        finalizer: every collection pass frees one link and makes the next one garbage, so long chains exhaust the
+        pass cap of one collection and leave work buffered for the next (explicit or automatic) one."""
+        r = self.r
+        f = self.p.feat
+        self.fixed_shape = True
+        self.ns, self.nu, self.nwf = 1, 1, 0
+        n = r.choice([2, 3, 5, 9, 10, 11, 12, 14, 23])
+        self.scripts = {1: ["clrf s u0"], 2: ["clrf s u0", "new h5 1 1 0 0 0 0"]}
+        self.script_kind = {1: "fin", 2: "fin"}
+        self.nscripts = 2
+        lines = ["program %s" % name, "consts %s" % self.consts,
+                 "feat fin=%d weak=%d clean=%d auto=%d" % (f["fin"], f["weak"], f["clean"], f["auto"]),
+                 "sizes node=%d map=%d" % (self.sizes["node"], self.sizes["map"]), "tables %d %d %d" % (self.nh, self.nw, self.nk),
+                 "script 1 clrf s u0", "script 2 clrf s u0 ; new h5 1 1 0 0 0 0", "begin"]
+        ops = []
+        if f["auto"]:
+            ops.append("cfg auto %d" % (0 if r.random() < 0.3 else 1))
+            if r.random() < 0.7:
+                ops.append("cfg buf %d" % r.randrange(1, 4))
+        fin = r.choice([1, 1, 2]) if f["fin"] else 0
+        # build the chain backwards with two table entries: h0 always names the current head
+        ops.append("new h0 1 1 0 0 %d 0" % fin)
+        ops.append("setf h0 f0 h0")
+        for i in range(n - 1):
+            ops.append("new h1 1 1 0 0 %d 0" % fin)
+            ops.append("setf h1 f0 h1")
+            ops.append("movef h1 u0 h0")
+            ops.append("takef h1 u0 h0" if False else "clone h1 h0")
+            ops.append("drop h1")
+        ops.append("drop h0")
+        tail = []
+        for _ in range(r.randrange(1, 4)):
+            tail.append(r.choice(["collect", "new h2 1 1 0 0 0 0", "new h3 1 1 0 0 0 0", "drop h2", "drop h3", "collect"]))
+        ops += tail
+        for _ in range(r.randrange(2, 6)):
+            ops.append("collect")
+        return lines + ops + ["drop h2", "drop h3", "drop h5", "collect", "collect", "end"]
+
     def program(self, name):
-        if self.r.random() < getattr(self.p, "scenario_p", 0.3):
+        x = self.r.random()
+        if x < getattr(self.p, "chain_p", 0.04):
+            return self.fin_chain(name)
+        if x < getattr(self.p, "scenario_p", 0.3):
             return self.scenario(name)
         r = self.r
         f = self.p.feat
